@@ -170,7 +170,7 @@ def run(ctx):
     record(th.reorder_datums(th.example_stream("external_assets_legacy.json"), rng, "late"), "example:legacy:datums-late")
     for i in range(10 if q else 40):
         record(th.reorder_datums(th.example_stream("external_assets_legacy.json"), rng), f"example:legacy:reordered:{i}")
-    for i in range(100 if q else 2000):
+    for i in range(200 if q else 2000):
         record(th.random_norm_run(rng, i, max_events=5 if q else 8), f"random:{i}")
 
     ctx.note(f"phase recorded runs: {time.time() - t0:.1f}s")
